@@ -482,6 +482,28 @@ func (m *Model) manifestGet(h *Host, e *Entry, req *http.Request) *Resp {
 		return errResp(404, "MANIFEST_UNKNOWN", "manifest unknown")
 	}
 	mf := repo.Manifests[d]
+	if h.Feat.HonourAccept {
+		ok, any := false, false
+		for _, v := range req.Header.Values("Accept") {
+			for _, a := range strings.Split(v, ",") {
+				a = strings.TrimSpace(a)
+				if i := strings.IndexByte(a, ';'); i >= 0 {
+					a = strings.TrimSpace(a[:i])
+				}
+				if a == "" {
+					continue
+				}
+				any = true
+				if a == mf.MediaType || a == "*/*" {
+					ok = true
+				}
+			}
+		}
+		if any && !ok {
+			e.Note = "stored media type " + mf.MediaType + " not acceptable"
+			return errResp(404, "MANIFEST_UNKNOWN", "manifest found, but the accept header does not support its media type")
+		}
+	}
 	r := newResp(200)
 	r.Header.Set("Content-Type", mf.MediaType)
 	if !(h.Feat.HeadNoDigest && req.Method == "HEAD") {
